@@ -30,6 +30,23 @@ def gen_sync(rng, n, tier):
                 e = b + min(span, 3000)
             ops.append(f"ranges {b} {e} {f}")
         hs.append(History(ops, tags={"ranges:random"}))
+    # the syncer itself: SyncCFTBlocks / SyncBFTBlocks of the real StateSyncer over three fake peers that serve a synthetic
+    # hash-linked chain (one of them may fail its first requests): every missing height is requested once, in ascending
+    # order, and every block is handed on once, in order, followed by the end marker
+    for k in range(max(4, n // 10)):
+        ops = []
+        for _ in range(10):
+            f = rng.choice([0, 1, 2, 3, 5, 10])
+            ff = f or 5
+            b = rng.choice([1, 1, 2, ff, ff + 1, rng.randrange(1, 60)])
+            span = rng.choice([0, 0, 1, ff - 1, ff, ff + 1, 2 * ff, 2 * ff + 1, rng.randrange(0, 6 * ff + 1)])
+            e = b + span if rng.random() > 0.07 else max(0, b - 1)
+            kind = rng.choice(["cft", "cft", "bft"])
+            if rng.random() < 0.35:
+                ops.append(f"{kind} {b} {e} {f} {rng.choice([1, 2, 3])} {rng.choice([1, 2, 5])}")
+            else:
+                ops.append(f"{kind} {b} {e} {f}")
+        hs.append(History(ops, tags={"syncer"}))
     return hs
 
 
@@ -37,6 +54,33 @@ def mon_sync(h, obs):
     hits = []
     for op, o in zip(h.ops, obs):
         ws = op.split()
+        if ws[0] in ("cft", "bft"):
+            b, e = int(ws[1]), int(ws[2])
+            if b > e:
+                if o != "err":
+                    hits.append(Hit("C20/syncer/no-error", f"`{op}` (begin > end) did not fail: {o[:120]}", detail=op))
+                continue
+            import re as _re
+            m = _re.match(r"^blocks=\[([\d ]*)\] (\S+) requests=\[([\d\- ]*)\]$", o or "")
+            if not m:
+                hits.append(Hit("C20/syncer/bad-result", f"`{op}` -> {(o or '')[:160]}", detail=op))
+                continue
+            got = [int(x) for x in m.group(1).split()]
+            if got != list(range(b, e + 1)):
+                hits.append(Hit("C20/syncer/blocks-not-each-height-once-in-order", f"`{op}` handed on blocks {got[:40]} for the missing heights {b}..{e}", detail=op))
+            elif m.group(2) != "end":
+                hits.append(Hit("C20/syncer/no-end-marker", f"`{op}`: the stream of synchronised blocks is not terminated", detail=op))
+            else:
+                rs = [tuple(int(x) for x in p.split("-")) for p in m.group(3).split()]
+                nxt = b
+                for (rb, re_) in rs:
+                    if rb != nxt or re_ < rb or re_ > e:
+                        nxt = None
+                        break
+                    nxt = re_ + 1
+                if nxt != e + 1:
+                    hits.append(Hit("C20/syncer/requests-not-a-partition", f"`{op}`: the answered block requests {m.group(3)} do not cover {b}..{e} exactly once in ascending order", detail=op))
+            continue
         if ws[0] != "ranges":
             continue
         b, e, f = int(ws[1]), int(ws[2]), int(ws[3])
@@ -67,7 +111,9 @@ def mon_sync(h, obs):
 def tags_sync(h, obs):
     t = set()
     for op, o in zip(h.ops, obs):
-        if o == "err":
+        if op.startswith(("cft", "bft")):
+            t.add("syncer:" + op.split()[0] + (":peer-fails" if len(op.split()) == 6 else "") + (":refused" if o == "err" else ""))
+        elif o == "err":
             t.add("ranges:refused")
         elif o.count("-") == 1:
             t.add("ranges:single")
